@@ -33,6 +33,32 @@ class BoomType(TypeError):
 EXC = {'Boom': Boom, 'KeyError': BoomKey, 'TypeError': BoomType}
 
 
+class HashRaises(object):
+    def __hash__(self):
+        raise TypeError('HashRaises: unhashable')
+
+    def __repr__(self):
+        return '<HashRaises>'
+
+
+class ReprRaises(object):
+    def __repr__(self):
+        raise ValueError('ReprRaises: no repr')
+
+    def __reduce_ex__(self, proto):
+        raise ValueError('ReprRaises: cannot be pickled')
+
+
+def _gen():
+    yield 1
+
+
+def unkeyables():
+    """argument values that some keymap cannot turn into a usable key"""
+    return [('list', [1]), ('dict', {1: 2}), ('set', {1}), ('hash-raises', HashRaises()), ('repr-raises', ReprRaises()),
+            ('generator', _gen())]
+
+
 def expected_result(cfg, x, y):
     if cfg.get('result', 'str') == 'tuple':
         return ('g', x, y)
@@ -49,6 +75,8 @@ def make_function(cfg, log, ctl):
             exc = ctl['raise']
             ctl['raised'] = exc
             raise exc
+        if not isinstance(x, int):
+            return ('u', type(x).__name__)
         if tup:
             return ('g', x, y)
         return 'g(%r,%r)' % (x, y)
@@ -270,7 +298,7 @@ def canon_obj(o, depth=0):
     if isinstance(o, collections.deque):
         return ('deque',) + tuple(canon_obj(v, depth + 1) for v in o)
     if isinstance(o, (set, frozenset)):
-        return ('set',) + tuple(sorted((repr(canon_obj(v, depth + 1)) for v in o)))
+        return ('set',) + tuple(sorted((sr(canon_obj(v, depth + 1)) for v in o)))
     if isinstance(o, dict):
         if type(o).__name__ == 'cache' or hasattr(o, '__asdict__'):
             return ('CACHE',)
@@ -327,16 +355,28 @@ def snapshot(wrapper, log):
                     cells=(memorder, tuple(cells)), stats=stats, info=info, loglen=len(log))
 
 
+def sr(x):
+    """repr that never raises (arguments under test may have a hostile __repr__)"""
+    try:
+        return repr(x)
+    except BaseException:
+        if isinstance(x, (tuple, list)):
+            return '(' + ','.join(sr(y) for y in x) + ')'
+        if isinstance(x, dict):
+            return '{' + ','.join('%s:%s' % (sr(k), sr(v)) for k, v in x.items()) + '}'
+        return '<%s instance>' % type(x).__name__
+
+
 def _frz(d):
     if d is None:
         return None
-    return tuple(sorted(((repr(k), repr(v)) for k, v in d.items())))
+    return tuple(sorted(((sr(k), sr(v)) for k, v in d.items())))
 
 
 def snap_key(s):
     """hashable state key (statistics excluded, see DESIGN 2)"""
-    return (tuple((repr(k), repr(v)) for k, v in s.mem.items()), _frz(s.arch), _frz(s.swap),
-            s.archived, repr(s.cells))
+    return (tuple((sr(k), sr(v)) for k, v in s.mem.items()), _frz(s.arch), _frz(s.swap),
+            s.archived, sr(s.cells))
 
 
 def snap_full(s):
@@ -384,6 +424,17 @@ def apply_event(S, ev, script=()):
                 S.ctl['raise'] = exc
                 tr.raised = exc
                 tr.ret = w(*a, **k)
+            elif kind == 'callu':
+                name, val = unkeyables()[ev[1]]
+                tr.extra['value_kind'] = name
+                tr.extra['value'] = val
+                try:
+                    k = w.key(val)
+                    hash(k)
+                    tr.extra['keyable'] = True
+                except BaseException:
+                    tr.extra['keyable'] = False
+                tr.ret = w(val)
             elif kind == 'dump':
                 tr.ret = w.dump()
             elif kind == 'load':
@@ -425,7 +476,7 @@ def apply_event(S, ev, script=()):
     if tr.exc is not None:
         tr.obs = ('exc', type(tr.exc).__name__, str(tr.exc)[:80])
     else:
-        tr.obs = ('ret', repr(tr.ret))
+        tr.obs = ('ret', sr(tr.ret))
     # key coherence: an evaluating call that stores something new stores it under key()
     tr.incoherent = None
     if kind == 'call' and tr.exc is None and tr.logdelta:
